@@ -125,6 +125,12 @@ def run(ctx):
         L = (2, 2, 3, 4)[k % 4]
         scripts.append(wrap_fill_script(L, rng, dgram=False, name="wrapfill%d.%d" % (L, k)))  # stream only: a UDP query outstanding > 1 s resends
         meta.append({"beh": None, "refusal": True})
+    # bounded concurrent stress: ReserveNewQuery hammered while exchanges register their queries (Writes held)
+    for k in range(4 if T else 2):
+        L = (1, 2)[k % 2]
+        scripts.append({"name": "stress%d.%d" % (L, k), "maxCq": L, "dgram": False, "qid0": 0, "idpolicy": "random",
+                        "steps": [{"a": "Stress", "n": 8000 if T else 4000}], "probe": True, "probe_c": L + 2, "grace_ms": 1500})
+        meta.append({"beh": None, "refusal": False})
     nrand = 500 if T else 40
     for i in range(nrand):
         L = rng.choice([1, 1, 2, 2, 3])
